@@ -1,30 +1,12 @@
 #!/bin/bash
-# for every seeded change: apply to /repo, run the check of its property, restore; write seeded/MATRIX.md
-# and refresh the table of DESIGN.md section 10.4 (tools/design_matrix.py)
-# usage: tools/seed_matrix.sh [seed-id ...]   (default: all; with ids only those rows are re-run and merged)
+# for every seeded change (or the listed ones): apply it to a scratch copy of /repo, run the check of its property there,
+# collect one row; then write seeded/MATRIX.md and refresh the table of DESIGN.md section 10.4 (tools/design_matrix.py).
+# /repo itself is never patched.   usage: tools/seed_matrix.sh [seed-id ...]
 cd /verif
-OUT=/verif/seeded/MATRIX.md
-ROWS=/verif/seeded/.matrix_rows
-mkdir -p $ROWS
 if [ $# -gt 0 ]; then LIST="$@"; else LIST=$(ls -d /verif/seeded/*/ | xargs -n1 basename); fi
-for id in $LIST; do
-  d=/verif/seeded/$id
-  prop=${id:0:3}
-  P=$d/patch.diff
-  [ -f $d/patch_on_fixed_tree.diff ] && P=$d/patch_on_fixed_tree.diff
-  git -C /repo diff --quiet || { echo "repo dirty"; exit 9; }
-  if ! git -C /repo apply $P 2>/dev/null; then echo "| $id | $prop | - | patch does not apply | |" > $ROWS/$id; continue; fi
-  ./check $prop > /tmp/seed_$id.log 2>&1; rc=$?
-  git -C /repo checkout -- .
-  ded=$(grep "^VIOLATION" /tmp/seed_$id.log | grep -c "obligation=")
-  nat=$(grep "^VIOLATION" /tmp/seed_$id.log | grep -vc "obligation=")
-  dnames=$(grep "^VIOLATION" /tmp/seed_$id.log | grep "obligation=" | sed -e 's/.*obligation=//' -e 's/ no-failing-input-found$//' | head -2 | sed 's/|/\//g' | tr '\n' ';' | sed 's/;$//; s/;/ ; /')
-  nnames=$(grep "^VIOLATION" /tmp/seed_$id.log | grep -v "obligation=" | sed -e 's/.*replay=\/verif\/replays\///' -e 's/\.json.*//' -e 's/|/\//g' | head -2 | tr '\n' ';' | sed 's/;$//; s/;/ ; /')
-  echo "| $id | $prop | $rc | $ded: $dnames | $nat: $nnames |" > $ROWS/$id
-  echo "$id rc=$rc ded=$ded nat=$nat"
-done
-git -C /verif checkout -- evidence 2>/dev/null
+echo $LIST | tr ' ' '\n' | xargs -P 4 -n 1 tools/seed_row.sh
+OUT=/verif/seeded/MATRIX.md
 echo "| seed | property | exit | deductive: failing obligations (first two) | native: violations (first two) |" > $OUT
 echo "|------|----------|------|-------------------------------------------|-------------------------------|" >> $OUT
-cat $ROWS/* >> $OUT
+cat /verif/seeded/.matrix_rows/* >> $OUT
 python3 tools/design_matrix.py
